@@ -113,7 +113,11 @@ class _STIXBase(collections.abc.Mapping):
 
     def _check_object_constraints(self):
         for m in self.get('granular_markings', []):
-            validate(self, m.get('selectors'))
+            # Only granular marking objects carry selectors to validate; on
+            # types without a granular_markings property this is arbitrary
+            # custom content.
+            if isinstance(m, collections.abc.Mapping):
+                validate(self, m.get('selectors'))
 
     def __init__(self, allow_custom=False, interoperability=False, **kwargs):
         cls = self.__class__
